@@ -60,6 +60,12 @@ EPS = 1e-10
 CIS_TOL = 1e-8
 SP2_TOL = 1e-7
 ATOL = 1e-5
+# The analytical and the semi-numerical evaluators difference the overlap integrals (PM6_SP: also the core-core
+# terms) internally with a central step delta = 1e-5 A, which amplifies the round-off of those integrals by
+# 1/(2 delta): measured over all third-row pairs x 3 bond scales x 4 methods the noise floor is 5.6e-6 eV/A
+# (PM6_SP S-Cl; it grows like 1/delta when delta is reduced, i.e. it is round-off, not truncation).  Their absolute
+# tolerance is therefore 5e-5 (9x the measured floor; the smallest genuine defect met is 1.2e-3).
+ATOL_INTERNAL_FD = 5e-5
 RTOL = 1e-6
 K_SP2 = 5000.0
 ROUGH_MAX = 5e-3  # |D(h) - D(2h)| eV/A: above this the energy is not smooth over the stencil
@@ -97,8 +103,9 @@ def _layout_mols(mol, layout, seed):
     raise ValueError(layout)
 
 
-def _tol(cfg, fmax):
-    t = ATOL + RTOL * fmax
+def _tol(cfg, fmax, mode="autodiff"):
+    internal_fd = mode != "autodiff" and not cfg["excited"]
+    t = (ATOL_INTERNAL_FD if internal_fd else ATOL) + RTOL * fmax
     if cfg["sp2"]:
         t += K_SP2 * SP2_TOL
     return t
@@ -182,8 +189,7 @@ def _run_unit(unit):
     fd["smooth"] = _smooth(fd, cfg)
     out["fd"] = fd
     fmax = float(np.abs(fd["F"]).max())
-    tol = _tol(cfg, fmax)
-    out["tol"] = tol
+    out["tol"] = {m: _tol(cfg, fmax, m) for m in MODES}
     out["fmax"] = fmax
     clamp = method in METHODS and bool(T.clamp_elements(method, mol["species"]))
     for m in ok:
@@ -193,6 +199,7 @@ def _run_unit(unit):
         d["err_fd"] = float(diff.max())
         d["worst"] = (int(a), int(c))
         d["dE"] = abs(d["Etot"] - fd["E0"])
+        tol = out["tol"][m]
         if d["err_fd"] <= tol:
             continue
         # confirmation with singles before anything is called a violation (DESIGN section 9)
@@ -334,9 +341,9 @@ def _tilt_facts(tr, mode):
     fd = tr.get("fd", {})
     if tm.get("status") != "ok" or fd.get("status") != "ok" or not fd.get("smooth") or "err_fd" not in tm:
         return {}
-    out = {"vanishes_when_tilted": bool(tm["err_fd"] <= tr["tol"]), "err_tilted": tm["err_fd"]}
+    out = {"vanishes_when_tilted": bool(tm["err_fd"] <= tr["tol"][mode]), "err_tilted": tm["err_fd"]}
     if tm.get("err_fd_with_floor") is not None:
-        out["vanishes_when_tilted_with_hpp_floor"] = bool(tm["err_fd_with_floor"] <= tr["tol"])
+        out["vanishes_when_tilted_with_hpp_floor"] = bool(tm["err_fd_with_floor"] <= tr["tol"][mode])
     return out
 
 
@@ -404,7 +411,7 @@ def judge(chk, unit, res, stats, tilt_cache):
                 stats["degenerate_state"] += 1
                 chk.case(key, nontrivial=False, outcome="degenerate-active-state")
                 continue
-        err, tol = d["err_fd"], res["tol"]
+        err, tol = d["err_fd"], res["tol"][mode]
         tf = _tilt_facts(tr, mode)
         if not fd["smooth"]:
             # energies of the stencil are not on one smooth surface.  If that belongs to an axis-aligned atom pair
@@ -445,8 +452,8 @@ def judge(chk, unit, res, stats, tilt_cache):
             stats["unconfirmed"].append((key, err, d.get("confirm_err")))
             continue
         more = dict(err=err, tol=tol, confirmed_with_singles=True, energy_not_smooth_across_stencil=False)
-        others = [res["modes"][m].get("err_fd") for m in modes if m != mode and res["modes"][m]["status"] == "ok"]
-        more["other_evaluators_ok"] = bool(all(o is not None and o <= tol for o in others)) if others else None
+        others = [(res["modes"][m].get("err_fd"), res["tol"][m]) for m in modes if m != mode and res["modes"][m]["status"] == "ok"]
+        more["other_evaluators_ok"] = bool(all(o is not None and o <= t for o, t in others)) if others else None
         if "err_fd_with_floor" in d:
             ef = d["err_fd_with_floor"]
             more["vanishes_with_hpp_floor_in_derivative"] = bool(ef is not None and ef <= tol)
@@ -466,7 +473,8 @@ def judge(chk, unit, res, stats, tilt_cache):
         for b in okm[i + 1 :]:
             da, db = res["modes"][a], res["modes"][b]
             diff = float(np.abs(da["force"] - db["force"]).max())
-            tolp = ATOL + RTOL * float(np.abs(da["force"]).max())
+            internal_fd = (a != "autodiff" or b != "autodiff") and not cfg["excited"]
+            tolp = (ATOL_INTERNAL_FD if internal_fd else ATOL) + RTOL * float(np.abs(da["force"]).max())
             key = unit_key(unit, f"{a}~{b}")
             chk.case(key, nontrivial=True, outcome=f"pair:{L.fmt_err(diff)}")
             if diff <= tolp:
@@ -498,7 +506,8 @@ def run(chk, tier, seed):
 
     vp.warm()
     units = element_lattice(tier, seed) + config_lattice(tier, seed)
-    chk.planned = sum(len(u.get("modes", MODES)) for u in units)
+    # one case per (unit, evaluator) plus one per evaluator pair of a unit
+    chk.planned = sum(len(u.get("modes", MODES)) * (len(u.get("modes", MODES)) + 1) // 2 for u in units)
     # determinism: one sample unit twice in two separate processes must agree bitwise
     probe = dict(lattice="element", method="AM1", spec={"mol": "H2CO", "orient": "generic"}, seed=seed)
     r2 = pmap(run_unit, [probe, probe], chunk=1, timeout=600)
@@ -539,7 +548,7 @@ def run(chk, tier, seed):
         r = by_unit[i]
         if is_error(r) or is_timeout(r) or r.get("fd", {}).get("status") != "ok":
             continue
-        if any(d["status"] == "ok" and d.get("err_fd", 0.0) > r["tol"] for d in r["modes"].values()) and _has_axis(u):
+        if any(d["status"] == "ok" and d.get("err_fd", 0.0) > r["tol"][m] for m, d in r["modes"].items()) and _has_axis(u):
             need.append(u)
     tilted = pmap(run_unit, [_tilted_unit(u) for u in need], chunk=2, timeout=900, progress="C01 tilted re-runs")
     tilt_cache = {unit_key(u, "*"): t for u, t in zip(need, tilted)}
@@ -564,7 +573,10 @@ def run(chk, tier, seed):
     chk.extra["largest_healthy_error"] = {m: f"{v[0]:.2e} at {v[1]}" for m, v in stats["worst_ok"].items()}
     chk.extra["largest_healthy_pairwise_over_tolerance"] = round(stats["max_pair"], 4)
     chk.extra["largest_accepted_curvature_mismatch_over_limit"] = round(stats["max_curv"] / CURV_MAX, 4)
-    chk.extra["tolerance"] = f"{ATOL} eV/A + {RTOL} |F|max (+ {K_SP2} x {SP2_TOL} with SP2); h = {H} A; scf_eps = {EPS}"
+    chk.extra["tolerance"] = (
+        f"autodiff and excited states {ATOL} eV/A, analytical/semi-numerical ground state {ATOL_INTERNAL_FD} eV/A (internal "
+        f"delta = 1e-5 A differencing), + {RTOL} |F|max (+ {K_SP2} x {SP2_TOL} with SP2); h = {H} A; scf_eps = {EPS}"
+    )
 
 
 def replay(payload):
@@ -581,10 +593,10 @@ def replay(payload):
             continue
         line = f"  {m}: Etot {d['Etot']:.10f} pad|F|max {d['pad_absmax']:.1e}"
         if "err_fd" in d:
-            line += f" max|F+dE/dx| {d['err_fd']:.3e} (tol {res['tol']:.1e}) worst atom/comp {d['worst']} singles-confirm {d.get('confirm_err')}"
+            line += f" max|F+dE/dx| {d['err_fd']:.3e} (tol {res['tol'][m]:.1e}) worst atom/comp {d['worst']} singles-confirm {d.get('confirm_err')}"
             if d.get("err_fd_with_floor") is not None:
                 line += f" with-hpp-floor {d['err_fd_with_floor']:.3e}"
-            ok = ok and d["err_fd"] <= res["tol"]
+            ok = ok and d["err_fd"] <= res["tol"][m]
         ok = ok and d["pad_absmax"] == 0.0 and d["finite"]
         print(line)
     ms = [m for m, d in res["modes"].items() if d["status"] == "ok"]
@@ -592,5 +604,5 @@ def replay(payload):
         for b in ms[i + 1 :]:
             diff = float(np.abs(res["modes"][a]["force"] - res["modes"][b]["force"]).max())
             print(f"  {a} ~ {b}: {diff:.3e}")
-            ok = ok and diff <= ATOL + RTOL * float(np.abs(res["modes"][a]["force"]).max())
+            ok = ok and diff <= ATOL_INTERNAL_FD + RTOL * float(np.abs(res["modes"][a]["force"]).max())
     return ok
